@@ -1719,7 +1719,9 @@ def get_articulations(e):
         "unstress",
         "soft-accent",
     )
-    return [a for a in articulations if e.find(a) is not None]
+    # keep the order in which the articulations appear in the document, so that
+    # exporting a loaded file reproduces it
+    return list(dict.fromkeys(c.tag for c in e if c.tag in articulations))
 
 
 def get_ornaments(e):
